@@ -10,6 +10,7 @@ typedef aiounicast_nonblock AIO;
 typedef aiounicast_select AIO;
 #endif
 #include <vector>
+#include <unistd.h>
 #include <string>
 struct Z { mpz_t v; Z() { mpz_init(v); } Z(long x) { mpz_init_set_si(v, x); } ~Z() { mpz_clear(v); } operator mpz_ptr() { return v; } operator mpz_srcptr() const { return v; }
            long get() const { return mpz_sgn(v) * (long)mpz_get_ui(v); } private: Z(const Z&); Z& operator=(const Z&); };
@@ -30,6 +31,7 @@ extern "C" {
   extern unsigned char vf_aio_data[]; extern unsigned vf_aio_w[], vf_aio_r[]; extern unsigned vf_aio_eof[];
   extern unsigned vf_aio_read_frag, vf_aio_write_frag, vf_aio_eagain, vf_aio_delay;
   extern unsigned vf_aio_nread, vf_aio_nwrite, vf_aio_nselect, vf_aio_lastread;
+  extern unsigned vf_aio_plan[], vf_aio_plan_n, vf_aio_plan_i;
   extern unsigned vf_aio_mac_n, vf_aio_mac_nverify, vf_aio_mac_nverify_ok;
   extern unsigned vf_aio_ks_n, vf_aio_ks_reuse, vf_aio_nsetiv; extern unsigned char vf_aio_ks[]; extern unsigned vf_aio_ks_used[];
 }
@@ -80,9 +82,6 @@ static long pick(long fixed) {
 #ifndef H_CALLS
 #define H_CALLS 6
 #endif
-#ifndef H_FRAG
-#define H_FRAG 2
-#endif
 struct Got { long v[4]; unsigned n; unsigned fail; };
 // drain: call Receive on the link from party 0 until `calls` calls were made; collects what was delivered
 static void drain(AIO *B, Got &g, unsigned calls) {
@@ -94,20 +93,35 @@ static void drain(AIO *B, Got &g, unsigned calls) {
   }
 }
 
-// ---------------------------------------------------------------- 2. plain mode (and any mode, honest wire): fragmentation
-// Send NMSG integers, then receive through a transport whose reads are short at most H_FRAG times (arbitrary split points),
-// optionally late at most H_DELAY times: every integer exactly once, unchanged, in order; afterwards nothing more.
+// ---------------------------------------------------------------- fragmentation, every mode, honest wire
+// Send H_NMSG integers, then receive through a transport whose first reads deliver H_S1, H_S2 bytes (0 = everything pending; one
+// query per split point, enumerated by slices) and everything pending afterwards; optionally H_FRAG further short reads with
+// symbolic split points and H_DELAY late select() answers: every integer exactly once, unchanged, in order; afterwards nothing.
 #ifndef H_NMSG
 #define H_NMSG 2
 #endif
 #ifndef H_DELAY
 #define H_DELAY 0
 #endif
+#ifndef H_S1
+#define H_S1 0
+#endif
+#ifndef H_S2
+#define H_S2 0
+#endif
+#ifndef H_FRAG
+#define H_FRAG 0
+#endif
+static void plan() { vf_aio_plan[0] = H_S1; vf_aio_plan[1] = H_S2; vf_aio_plan_n = 2; vf_aio_plan_i = 0; vf_aio_read_frag = H_FRAG; vf_aio_delay = H_DELAY; }
 H_ENTRY(h_fragment) {
   AIO *A = mk(0), *B = mk(1);
   long v[3] = { pick(H_V1), pick(H_V2), pick(H_V3) };
-  for (unsigned i = 0; i < H_NMSG; ++i) { Z m(v[i]); bool s = A->Send(m, 1, 1); vf_assert(s, "integer accepted for sending"); }
-  vf_aio_read_frag = H_FRAG; vf_aio_delay = H_DELAY;
+  for (unsigned i = 0; i < H_NMSG; ++i) { Z m(v[i]); bool s = A->AIO::Send(m, 1, 1); vf_assert(s, "integer accepted for sending"); }
+#if H_ENC
+  vf_assert(vf_aio_ks_reuse == 0, "no keystream position is used for two messages (equal integers give different wire bytes under an ideal cipher)");
+  vf_assert(A->iv_flag_out[1] && vf_aio_w[P01] >= VF_AIO_BLKLEN, "the IV went out once, ahead of the first message");
+#endif
+  plan();
   Got g = { { 0, 0, 0, 0 }, 0, 0 };
   drain(B, g, H_CALLS);
   vf_assert(g.n == H_NMSG, "every integer sent is delivered exactly once");
@@ -118,9 +132,49 @@ H_ENTRY(h_fragment) {
   vf_assert(h.n == 0, "a further Receive delivers nothing");
   H_END();
 }
-H_ENTRY(h_probe) {
-  AIO *A = mk(0);
-  Z m(5); bool s = A->AIO::Send(m, 1, 1); vf_assert(s, "integer accepted for sending");
-  vf_assert(vf_aio_w[P01] == 2, "two bytes on the wire");
+
+// ---------------------------------------------------------------- authentication: the adversary edits the wire
+// two integers are sent (frames F1 = [0,b1), F2 = [b1,b2) on the wire), then the bytes in flight are edited (one query per edit):
+//  H_EDIT 1: byte H_POS ^= H_XOR    3: F1 removed    4: F1 replayed (F1 F1 F2)    5: F1 and F2 swapped    6: F2 replayed first (F2 F1 F2)
+// what is delivered must be a prefix of what was sent (nothing modified, inserted, replayed or out of order), and the edited
+// stream never yields both messages.
+#ifndef H_EDIT
+#define H_EDIT 1
+#endif
+#ifndef H_POS
+#define H_POS 0
+#endif
+#ifndef H_XOR
+#define H_XOR 1
+#endif
+H_ENTRY(h_wire_edit) {
+  AIO *A = mk(0), *B = mk(1);
+  long v[2] = { pick(H_V1), pick(H_V2) };
+  unsigned b0 = vf_aio_w[P01];
+  { Z m(v[0]); bool s = A->AIO::Send(m, 1, 1); vf_assert(s, "first integer accepted for sending"); }
+  unsigned b1 = vf_aio_w[P01];
+  { Z m(v[1]); bool s = A->AIO::Send(m, 1, 1); vf_assert(s, "second integer accepted for sending"); }
+  unsigned b2 = vf_aio_w[P01];
+  unsigned char *w = wire(P01), f1[16], f2[16]; unsigned l1 = b1 - b0, l2 = b2 - b1, o = b0;
+  vf_assume(l1 <= 16 && l2 <= 16 && b2 + 16 <= VF_AIO_CAP);
+  for (unsigned i = 0; i < l1; ++i) f1[i] = w[b0 + i];
+  for (unsigned i = 0; i < l2; ++i) f2[i] = w[b1 + i];
+  if (H_EDIT == 1) { vf_assume(H_POS < b2); w[H_POS] ^= H_XOR; o = b2; }
+  if (H_EDIT == 3) { for (unsigned i = 0; i < l2; ++i) w[o++] = f2[i]; }
+  if (H_EDIT == 4) { for (unsigned i = 0; i < l1; ++i) w[o++] = f1[i]; for (unsigned i = 0; i < l1; ++i) w[o++] = f1[i]; for (unsigned i = 0; i < l2; ++i) w[o++] = f2[i]; }
+  if (H_EDIT == 5) { for (unsigned i = 0; i < l2; ++i) w[o++] = f2[i]; for (unsigned i = 0; i < l1; ++i) w[o++] = f1[i]; }
+  if (H_EDIT == 6) { for (unsigned i = 0; i < l2; ++i) w[o++] = f2[i]; for (unsigned i = 0; i < l1; ++i) w[o++] = f1[i]; for (unsigned i = 0; i < l2; ++i) w[o++] = f2[i]; }
+  vf_aio_w[P01] = o;
+  plan();
+  Got g = { { 0, 0, 0, 0 }, 0, 0 };
+  drain(B, g, H_CALLS);
+  vf_assert(g.n <= 2, "never more messages delivered than sent");
+  for (unsigned i = 0; i < 2; ++i) if (i < g.n) vf_assert(g.v[i] == v[i], "what is delivered is a prefix of what was sent: nothing modified, inserted, replayed or out of order");
+  if (H_EDIT == 1 && H_POS < b1) vf_assert(g.n == 0, "a modified first message is not delivered, nor anything after it");
+  if (H_EDIT == 1 && H_POS >= b1) vf_assert(g.n == 1, "a modified second message is not delivered (the first one is)");
+  if (H_EDIT == 3) vf_assert(g.n == 0, "after a removed message nothing is delivered");
+  if (H_EDIT == 4) vf_assert(g.n == 1, "a replayed message is delivered once; the link stops at the replay");
+  if (H_EDIT == 5) vf_assert(g.n <= 1, "swapped messages: the later one is never delivered first");
+  if (H_EDIT == 6) vf_assert(g.n == 2, "a frame of the future in front is skipped before the first message; then both arrive in order");
   H_END();
 }
